@@ -297,12 +297,36 @@ def _child_env() -> dict:
     return env
 
 
-def run_child(root: str, ops: list[dict], kill: dict) -> tuple[str, int, list[dict]]:
+def v1_rows(seeds: list) -> list[tuple]:
+    return [(hashlib.sha1(b"v1-row-%d" % k).digest(), b"old-blob-%d." % k * (3 + k), b"old-key-%d" % k) for k in seeds]
+
+
+def make_v1_wallet(d: str, seeds: list) -> None:
+    """
+    A wallet database as version 1 of the schema left it (no id_format column, database_version '1'), holding some rows.
+    """
+    import sqlite3
+    os.makedirs(os.path.join(d, "wallet", "sqlite"), exist_ok=True)
+    con = sqlite3.connect(os.path.join(d, "wallet", "sqlite", WALLET_TABLE + ".db"))
+    con.execute("PRAGMA journal_mode = WAL")
+    con.executescript(f"""
+        CREATE TABLE IF NOT EXISTS {WALLET_TABLE}(hash BLOB, blob LONGBLOB, key MEDIUMBLOB, PRIMARY KEY (hash));
+        CREATE TABLE IF NOT EXISTS option(key TEXT PRIMARY KEY, value BLOB);
+        INSERT INTO option(key, value) VALUES('database_version', '1');
+    """)
+    con.executemany(f"INSERT INTO {WALLET_TABLE}(hash, blob, key) VALUES(?,?,?)", v1_rows(seeds))  # noqa: S608
+    con.commit()
+    con.close()
+
+
+def run_child(root: str, ops: list[dict], kill: dict, wallet_v1: list | None = None) -> tuple[str, int, list[dict]]:
     """
     Execute the workload in a child process inside a fresh directory under ``root``.
     Returns (directory, return code, parsed log). The caller removes the directory.
     """
     d = tempfile.mkdtemp(prefix="run_", dir=root)
+    if wallet_v1 is not None:
+        make_v1_wallet(d, wallet_v1)
     with open(os.path.join(d, "workload.json"), "w") as f:
         json.dump({"ops": ops, "kill": kill, "repo": REPO, "alarm": CHILD_TIMEOUT // 2}, f)
     env = _child_env()
@@ -489,9 +513,15 @@ def judge(case: dict, d: str, rc: int, log: list[dict], records: list[Record | N
                 if not any(g in everything for g in group):
                     fail("F2", "wallet:get_all", f"acknowledged attestation blob {_describe(rec)} is not in get_all()")
 
+        # rows that were in the (version 1) wallet file before the workload began
+        pre_rows = [(h, b, k, b"id_metadata") for h, b, k in v1_rows(case["wallet_v1"])] if case.get("wallet_v1") else []
+        for row in pre_rows:
+            if row not in visible.get(WALLET_TABLE, []):
+                fail("F2", "wallet:upgrade", f"a row of the version-1 wallet file ({_short(row[0])}) is missing or changed "
+                                             f"after the upgrade: {[tuple(_short(x) for x in r) for r in visible.get(WALLET_TABLE, []) if r[0] == row[0]]}")
         # F3 ------------------------------------------------------------------------------------------------
         for table, rows in visible.items():
-            allowed = [r.row for r in started if r.table == table]
+            allowed = [r.row for r in started if r.table == table] + (pre_rows if table == WALLET_TABLE else [])
             for row in rows:
                 if row not in allowed:
                     fail("F3", table, f"visible row in {table} matches no insert that had been started: "
@@ -569,7 +599,7 @@ def run_case(ctx: Ctx | None, root: str, case: dict, total_api: int | None = Non
     ops, records, pseuds = materialise(case)
     d = None
     try:
-        d, rc, log = run_child(root, ops, case["kill"])
+        d, rc, log = run_child(root, ops, case["kill"], case.get("wallet_v1"))
         if ctx is not None:
             nt, label = classify(case, rc, log, total_api)
             ctx.case(case, nt, cls=label)
@@ -586,7 +616,7 @@ def dry_run(root: str, case: dict) -> tuple[int, int]:
     ops, _, _ = materialise(case)
     d = None
     try:
-        d, rc, log = run_child(root, ops, {"mode": "none"})
+        d, rc, log = run_child(root, ops, {"mode": "none"}, case.get("wallet_v1"))
         done = next((r for r in log if r["t"] == "done"), None)
         if rc != 0 or done is None:
             died = next((r for r in log if r["t"] == "kill" and r.get("mode") == "error"), None)
@@ -620,9 +650,12 @@ def make_root() -> str:
 
 # ---- scripted workloads (exhaustive over their crash points) -----------------------------------------------
 
-def _script(tokens=(), metas=(), blobs=(), ops=()) -> dict:
-    return {"tokens": [list(t) for t in tokens], "metas": [list(m) for m in metas], "blobs": list(blobs),
-            "ops": [list(o) for o in ops]}
+def _script(tokens=(), metas=(), blobs=(), ops=(), wallet_v1=None) -> dict:
+    out = {"tokens": [list(t) for t in tokens], "metas": [list(m) for m in metas], "blobs": list(blobs),
+           "ops": [list(o) for o in ops]}
+    if wallet_v1 is not None:
+        out["wallet_v1"] = list(wallet_v1)
+    return out
 
 
 SCRIPTS: list[tuple[str, dict]] = [
@@ -650,6 +683,11 @@ SCRIPTS: list[tuple[str, dict]] = [
                                   ops=[("token", 0, 1), ("meta", 0, 0), ("reopen", "id"), ("token", 1, 1),
                                        ("meta", 1, 0)])),
     ("wallet-reopened", _script(blobs=[3, 5], ops=[("blob", 0), ("reopen", "wallet"), ("blob", 1)])),
+    # the wallet file was written by version 1 of the schema: the first open upgrades it (versioned schema), then records
+    # are written - a kill inside the upgrade must leave a file that opens again, with the old rows in it
+    ("wallet-upgraded-from-v1", _script(blobs=[3, 5], ops=[("blob", 0), ("reopen", "wallet"), ("blob", 1)],
+                                        wallet_v1=[1, 2])),
+    ("empty-wallet-upgraded-from-v1", _script(blobs=[4], ops=[("blob", 0)], wallet_v1=[])),
     ("large-content", _script(tokens=[(1, -1, 70000), (1, 0, 9000)], metas=[(1, 9000)],
                               ops=[("token", 0, 1), ("token", 1, 1), ("meta", 0, 0), ("att", 0, 0)])),
     # re-delivery: a record that is already stored is inserted again (ignored), then new records follow in the same
